@@ -2,7 +2,7 @@
 # Runs the repository's pinned test suite with the verification guard OFF and
 # compares with /root/.vp/BASELINE.json (253 stable tests must pass).
 OUT=$(mktemp /tmp/baseline.XXXXXX.xml)
-cd /repo && env -u PMUTT_VERIF /venv/bin/python -m pytest -ra -q -p no:cacheprovider --timeout=900 --continue-on-collection-errors --junitxml="$OUT" >/dev/null 2>&1
+cd "${VERIF_REPO:-/repo}" && env -u PMUTT_VERIF /venv/bin/python -m pytest -ra -q -p no:cacheprovider --timeout=900 --continue-on-collection-errors --junitxml="$OUT" >/dev/null 2>&1
 /venv/bin/python - "$OUT" <<'PY'
 import json, sys, xml.etree.ElementTree as ET
 base = json.load(open('/root/.vp/BASELINE.json'))
